@@ -1,15 +1,29 @@
 ------------------------------- MODULE TraceEq -------------------------------
 (***************************************************************************)
 (* C17, first clause: two traces recorded from the same operation script - *)
-(* one by the harness linked against the default build, one against the    *)
-(* build with parse_unknown_fields disabled - must agree event by event on *)
-(* results (including re-export and common view), caches and JSON digest.  *)
+(* one by the harness linked against the default build (A), one against   *)
+(* the build with parse_unknown_fields disabled (B).                       *)
+(*                                                                         *)
+(* MIXED # "1" (streams whose templates hold only fields the library       *)
+(* knows): the traces must agree event by event on results (including      *)
+(* re-export and common view), caches and JSON digest.                     *)
+(*                                                                         *)
+(* MIXED = "1" (streams that also define and use templates with fields the *)
+(* library does not know): after every call both builds must hold the same *)
+(* templates (what a later known-only packet decodes under), and every     *)
+(* returned packet that mentions no unknown field type (item.unk = FALSE   *)
+(* in the default build) must be returned identically by the feature-off   *)
+(* build.  A parser whose caches have diverged is not compared any further *)
+(* in that session (everything after is a consequence).                    *)
 (***************************************************************************)
-EXTENDS Naturals, Sequences, TLC, Json, IOUtils
+EXTENDS Naturals, Sequences, FiniteSets, TLC, Json, IOUtils
 
 RecA == ndJsonDeserialize(IOEnv.TRACE)
 RecB == ndJsonDeserialize(IOEnv.TRACE2)
-VARIABLE l
+Mixed == "MIXED" \in DOMAIN IOEnv /\ IOEnv.MIXED = "1"
+VARIABLES l,
+          ta, tb,     \* parser -> <<>> (nothing logged yet) or <<caches as last logged>>, per trace
+          off         \* parsers whose caches diverged in this session
 
 Same(a, b) ==
   /\ a.e = b.e
@@ -17,13 +31,64 @@ Same(a, b) ==
        [] a.e = "call" -> a.buf = b.buf
        [] OTHER        -> a = b
 
-Init == l = 1 /\ TLCSet(1, 0)
+Protos == {"v9", "ipfix"}
+NonEmpty(t, pr) == t[pr].data # <<>> \/ t[pr].opts # <<>>
+DiffProtos(x, y) ==
+  IF x = y THEN {}
+  ELSE IF x = <<>> THEN {pr \in Protos : NonEmpty(y[1], pr)}
+  ELSE IF y = <<>> THEN {pr \in Protos : NonEmpty(x[1], pr)}
+  ELSE {pr \in Protos : x[1][pr] # y[1][pr]}
+
+\* caches as logged: an entry with same = TRUE repeats what was last logged for that parser
+Upd(t, caches) ==
+  LET ch == {i \in 1..Len(caches) : ~caches[i].same}
+      ps == {caches[i].p : i \in ch} IN
+  [p \in DOMAIN t \cup ps |->
+     IF p \in ps THEN <<caches[CHOOSE i \in ch : caches[i].p = p].tmpl>> ELSE t[p]]
+
+MinLen(a, b) == IF Len(a) < Len(b) THEN Len(a) ELSE Len(b)
+\* first position at which the two results differ (0: none)
+FirstDiff(x, y) ==
+  LET n == MinLen(x, y)
+      d == {i \in 1..n : x[i] # y[i]} IN
+  IF d # {} THEN CHOOSE i \in d : \A j \in d : i <= j
+  ELSE IF Len(x) # Len(y) THEN n + 1 ELSE 0
+
+MixedFindings(a, b, ta2, tb2) ==
+  LET p == a.p
+      i == FirstDiff(a.out, b.out)
+      tainted == \E j \in 1..(i - 1) : j <= Len(a.out) /\ a.out[j].k \in {"v9", "ipfix"} /\ a.out[j].unk
+      items == IF i = 0 \/ tainted THEN {}
+               ELSE IF i > Len(a.out) THEN {<<"C17", "feature-off", "extra-item", b.out[i].k>>}
+               ELSE IF a.out[i].k \in {"v9", "ipfix"} /\ a.out[i].unk THEN {}
+               ELSE {<<"C17", "feature-off", "known-only-item-differs", a.out[i].k>>}
+      caches == {<<"C17", "feature-off", "cache-differs", pr>> :
+                   pr \in UNION {DiffProtos(IF q \in DOMAIN ta2 THEN ta2[q] ELSE <<>>, IF q \in DOMAIN tb2 THEN tb2[q] ELSE <<>>)
+                                 : q \in (DOMAIN ta2 \cup DOMAIN tb2) \ off}}
+  IN IF p \in off THEN {} ELSE items \cup caches
+
+Emit(fs) == \A f \in fs : PrintT("FINDING~~" \o ToString(l) \o "~~" \o f[1] \o "~~" \o f[2] \o "~~" \o f[3] \o "~~" \o f[4])
+
+Init == l = 1 /\ ta = <<>> /\ tb = <<>> /\ off = {} /\ TLCSet(1, 0)
 Next == /\ l <= Len(RecA) /\ l <= Len(RecB)
-        /\ IF Same(RecA[l], RecB[l]) THEN TRUE
-           ELSE PrintT("FINDING~~" \o ToString(l) \o "~~C17~~feature-off~~differs-from-default~~" \o RecA[l].e)
         /\ TLCSet(1, l)
         /\ l' = l + 1
-Spec == Init /\ [][Next]_l
+        /\ IF ~Mixed THEN
+             /\ IF Same(RecA[l], RecB[l]) THEN TRUE
+                ELSE PrintT("FINDING~~" \o ToString(l) \o "~~C17~~feature-off~~differs-from-default~~" \o RecA[l].e)
+             /\ UNCHANGED <<ta, tb, off>>
+           ELSE LET a == RecA[l]  b == RecB[l] IN
+             IF a.e = "reset" THEN ta' = <<>> /\ tb' = <<>> /\ off' = {}
+             ELSE IF a.e = "ret" /\ b.e = "ret" THEN
+               LET ta2 == Upd(ta, a.caches)  tb2 == Upd(tb, b.caches) IN
+               /\ Emit(MixedFindings(a, b, ta2, tb2))
+               /\ ta' = ta2 /\ tb' = tb2
+               /\ off' = off \cup {q \in DOMAIN ta2 \cup DOMAIN tb2 :
+                                     (IF q \in DOMAIN ta2 THEN ta2[q] ELSE <<>>) # (IF q \in DOMAIN tb2 THEN tb2[q] ELSE <<>>)}
+             ELSE /\ IF a.e = b.e THEN TRUE
+                     ELSE PrintT("FINDING~~" \o ToString(l) \o "~~C17~~feature-off~~event-kind-differs~~" \o a.e)
+                  /\ UNCHANGED <<ta, tb, off>>
+Spec == Init /\ [][Next]_<<l, ta, tb, off>>
 Accepted == \/ (TLCGet(1) = Len(RecA) /\ Len(RecA) = Len(RecB))
             \/ PrintT("FINDING~~" \o ToString(TLCGet(1)) \o "~~C17~~feature-off~~trace-length~~") 
 =============================================================================
